@@ -55,10 +55,11 @@ Record fixes := mkFixes {
   f_prune_nilsink : bool;   (* C10-prune-nil-sink *)
   f_prune_maps : bool;      (* C10-prune-maps *)
   f_prune_canon : bool;     (* C10-prune-canonical-flag *)
-  f_prune_reparent : bool   (* C10-prune-reparent *)
+  f_prune_reparent : bool;  (* C10-prune-reparent *)
+  f_prune_partial : bool    (* C10-prune-partial-reparent *)
 }.
-Definition fixed : fixes := mkFixes true true true true true true true true true true true true true true true.
-Definition pinned : fixes := mkFixes false false false false false false false false false false false false false false false.
+Definition fixed : fixes := mkFixes true true true true true true true true true true true true true true true true.
+Definition pinned : fixes := mkFixes false false false false false false false false false false false false false false false false.
 
 (* ---------- slices and maps ---------- *)
 Definition lenN {A} (l : list A) : N := N.of_nat (length l).
@@ -583,6 +584,35 @@ Fixpoint reparent_loop (nodes : list node) (off anchorIndex : index) (anchorRoot
       else (n :: rest', w, ch)
   end.
 
+(* repaired further (C10-prune-partial-reparent): after a complete or a partial prune, every block whose fork-choice parent was
+   dropped while its parent root lives on moves to that root's new lowest node, with its weight. for i := range pr.nodes *)
+Fixpoint reparent_general (cnt : nat) (i : nat) : M parray unit :=
+  match cnt with
+  | O => ret tt
+  | S cnt' =>
+      pa <- get ;;
+      node <- lift_o (rawNode pa (N.of_nat i)) ;;
+      (if (n_fp node =? NONE) || (pa_off pa <=? n_fp node) || (fst (n_ref node) =? n_parent node) then ret tt else
+       match bs_get (pa_bs pa) (n_parent node) with
+       | None => ret tt
+       | Some lowest =>
+           if snd (n_ref node) <=? lowest then ret tt else
+           match idx_get (pa_idx pa) (n_parent node, lowest) with
+           | None => ret tt
+           | Some parentIndex =>
+               let nodes1 := upd_nth (pa_nodes pa) i (set_fp node parentIndex) in
+               match nthN nodes1 (sub64 parentIndex (pa_off pa)) with
+               | None => fail (Panic IndexOOR)
+               | Some pn =>
+                   put (mkPA (pa_sink_nil pa) (pa_off pa) (pa_je pa) (pa_fe pa)
+                             (updN nodes1 (sub64 parentIndex (pa_off pa)) (set_w pn (sadd64 (n_w pn) (n_w node))))
+                             (pa_idx pa) (pa_bs pa) false)
+               end
+           end
+       end) ;;;
+      reparent_general cnt' (S i)
+  end.
+
 (* returns the calls made to the sink and whether the sink failed (the Go function then returns the sink's error) *)
 Definition OnPrune_core (fx : fixes) (sink : sink_fn) (anchorRoot : root) (anchorSlot : slot) : M parray (list (ref * bool) * bool) :=
   pa <- get ;;
@@ -606,6 +636,9 @@ Definition OnPrune_core (fx : fixes) (sink : sink_fn) (anchorRoot : root) (ancho
                      else mkPA (pa_sink_nil pa1) (pa_off pa1) (pa_je pa1) (pa_fe pa1) (pa_nodes pa1) (pa_idx pa1)
                                (bs_set (pa_bs pa1) anchorRoot anchorSlot) (pa_upd pa1) in
           let pa3 := drop_pruned fx (firstn (N.to_nat upto) pruned) pa2 in
+          if f_prune_partial fx then
+            put pa3 ;;; reparent_general (length (pa_nodes pa3)) 0 ;;; ret (calls, failed)
+          else
           if failed then put pa3 ;;; ret (calls, true) else
           if f_prune_reparent fx then
             anchorNode <- lift_o (rawNode pa3 (sub64 anchorIndex (pa_off pa3))) ;;
